@@ -45,12 +45,15 @@ Proof. exists false, [startup [(0, [SDef 0 [1] DAbs; SDef 1 [1] DAbs])] [2; 1]],
 Theorem refuted_D122 : refuted 122.
 Proof. exists false, [startup [(0, [SDef 0 [1] DAbs; SDef 0 [2] DAbs])] []], [1; 2]. split; vm_compute; reflexivity. Qed.
 
-(* D123: entity-method call with limit=5 raises TypeError although no positional argument was misused *)
-Theorem refuted_D123 : exists s tc target nargs nparams kws,
-  NoDup (map kw_key kws) /\ outgoing (only 123) s tc target nargs nparams kws = OTypeError /\ args_misuse s nargs nparams = false.
+(* D123: whenever `limit` is handed to hass.services.async_call as a control argument the call dies with a TypeError
+   (HomeAssistant 2025.1 has no such parameter); conformant behaviour delivers the call.  Stated on [ha_call] so that it does
+   not depend on the regenerated tables (State.get's table currently recognises `limit`: Gen.hass_args_entity) *)
+Theorem refuted_D123 : exists target data h,
+  (exists x, In (HGiven x) h /\ kw_key x = 4) /\
+  ha_call (only 123) target data h = OTypeError /\ ha_call all_off target data h = ODelivered data false.
 Proof.
-  exists SiteEntity, false, SrOpt, 0, 1, [mk_kw 30 4 3; mk_kw 4 4 5]. split; [|split; reflexivity].
-  cbn. repeat constructor; cbn; intuition discriminate.
+  exists SrOpt, [mk_kw 5 5 1; mk_kw 30 4 3], [HGiven (mk_kw 4 4 5)]. split; [|split; reflexivity].
+  exists (mk_kw 4 4 5). split; [left; reflexivity|reflexivity].
 Qed.
 
 (* ---------- the hypotheses of the positive theorems are inhabited by non-trivial instances ---------- *)
